@@ -16,7 +16,13 @@ RULE = ('random irreducible row-stochastic chains with small-denominator rationa
         'dyadic (entries k/16, exact in binary64), periodic cycles, zero/non-zero diagonals; '
         'source/sink sets: ALL disjoint non-empty pairs with sizes <= 3 for small n, random pairs for larger n, '
         'given in shuffled order as list / ndarray / scalar; containers ndarray + the 7 scipy *_matrix formats; '
-        'lag in {1, 2.5, 10}; populations given or computed. A case is non-trivial when it has at least one '
+        'lag in {1, 2.5, 10} (+ 1e-6, 1e6); populations given (ndarray/list/tuple/float32) or computed. Edge families: '
+        'metastable / nearly uncoupled chains, 2-state chains, banded chains with 257..300 states (index ids > 255, model skipped), '
+        'entries ~1e-13 next to O(1), self-transition 1-1e-6 / 1-1e-9, a source adjacent only to a sink, sources+sinks = all states '
+        'but one (set sizes > 3), every sink id below every source id in unsorted order, index arguments as '
+        'list/tuple/range/python int/numpy scalar/int8/uint8/int16/uint16/int32/int64 arrays, tprob as C/Fortran/negative-stride/'
+        'float32/np.matrix, keyword vs positional call, the SAME argument objects reused across consecutive calls. '
+        'A case is non-trivial when it has at least one '
         'intermediate state (committors) / at least one non-sink state (mfpts); distinct by canonical input')
 ASSUMPTIONS = [
     'the numerical solvers (SuperLU spsolve, LAPACK gesv/getri, eig) meet their contracts up to rounding: '
@@ -99,6 +105,12 @@ def gen_chain(rng, n, kind):
         return _normalise_rows(C.tolist())
     if kind in ('meta-rev', 'meta-nonrev'):
         return gen_metastable(rng, kind == 'meta-rev')
+    if kind == 'sticky':
+        return gen_sticky(rng, n)
+    if kind in ('tiny-rev', 'tiny-nonrev'):
+        return gen_tiny(rng, n, kind == 'tiny-rev')
+    if kind == 'rev-dyadic':
+        return gen_rev_dyadic(rng, n)
     raise ValueError(kind)
 
 
@@ -138,6 +150,120 @@ def gen_metastable(rng, reversible, n_max=8):
     perm = [int(x) for x in rng.permutation(n)]
     C = [[C[perm[i]][perm[j]] for j in range(n)] for i in range(n)]
     return _normalise_rows(C)
+
+
+def gen_banded(rng, n):
+    """reversible banded chain (neighbours +-1, +-2, self) with integer symmetric weights; returns (T, pi) exact"""
+    C = [[0] * n for _ in range(n)]
+    for i in range(n):
+        C[i][i] = int(rng.integers(0, 4))
+        if i + 1 < n:
+            C[i][i + 1] = C[i + 1][i] = int(rng.integers(1, 6))
+        if i + 2 < n and rng.random() < 0.5:
+            C[i][i + 2] = C[i + 2][i] = int(rng.integers(1, 6))
+    tot = sum(sum(r) for r in C)
+    return _normalise_rows(C), [F(sum(r), tot) for r in C]
+
+
+def _shuffle(rng, C):
+    n = len(C)
+    perm = [int(x) for x in rng.permutation(n)]
+    inv = [0] * n
+    for new, old in enumerate(perm):
+        inv[old] = new
+    return [[C[perm[i]][perm[j]] for j in range(n)] for i in range(n)], inv
+
+
+def _rev_weights(rng, n, scale=1):
+    C = np.zeros((n, n), dtype=object)
+    for i in range(n):
+        for j in range(i, n):
+            if rng.random() < 0.6:
+                C[i, j] = C[j, i] = int(rng.integers(1, 6)) * scale
+    perm = rng.permutation(n)
+    for a, b in zip(perm[:-1], perm[1:]):
+        if C[a, b] == 0:
+            C[a, b] = C[b, a] = int(rng.integers(1, 6)) * scale
+    return [[int(x) for x in row] for row in C]
+
+
+def gen_pendant(rng, n):
+    """reversible chain in which state s is adjacent ONLY to state k (no self-loop half of the time);
+    returns (T, s, k) after shuffling the labels"""
+    C = _rev_weights(rng, n - 1)
+    k = int(rng.integers(0, n - 1))
+    C = [row + [0] for row in C] + [[0] * n]
+    C[n - 1][k] = C[k][n - 1] = int(rng.integers(1, 6))
+    if rng.random() < 0.5:
+        C[n - 1][n - 1] = int(rng.integers(1, 4))
+    C, inv = _shuffle(rng, C)
+    return _normalise_rows(C), inv[n - 1], inv[k]
+
+
+def gen_sticky(rng, n):
+    """reversible chain with one or two states whose self-transition probability is 1 - O(1e-6) or 1 - O(1e-9)"""
+    C = _rev_weights(rng, n)
+    for i in rng.choice(n, size=int(rng.integers(1, 3)), replace=False):
+        C[int(i)][int(i)] = int(rng.integers(1, 6)) * 10 ** int(rng.choice([6, 9]))
+    return _normalise_rows(C)
+
+
+def gen_tiny(rng, n, reversible):
+    """well connected chain with weights (1..5)e12 plus a few extra edges of weight 1: transition probabilities
+    ~1e-13 next to O(1) ones, ordinary spectral gap"""
+    S = 10 ** 12
+    if reversible:
+        C = _rev_weights(rng, n, S)
+    else:
+        C = [[0] * n for _ in range(n)]
+        for i in range(n):
+            for j in range(n):
+                if rng.random() < 0.5:
+                    C[i][j] = int(rng.integers(1, 6)) * S
+        perm = [int(x) for x in rng.permutation(n)]
+        for a, b in zip(perm, perm[1:] + perm[:1]):
+            if C[a][b] == 0:
+                C[a][b] = int(rng.integers(1, 6)) * S
+    zeros = [(i, j) for i in range(n) for j in range(n) if C[i][j] == 0 and (not reversible or i <= j)]
+    for idx in rng.permutation(len(zeros))[:3]:
+        i, j = zeros[int(idx)]
+        C[i][j] = 1
+        if reversible:
+            C[j][i] = 1
+    return _normalise_rows(C)
+
+
+def gen_rev_dyadic(rng, n):
+    """symmetric doubly-stochastic chain with entries k/32 (exact in float32 and float64): uniform stationary vector"""
+    C = np.zeros((n, n), dtype=int)
+    cyc = [int(x) for x in rng.permutation(n)]
+    w = [1, 1, 1, 1]
+    for _ in range(12):
+        w[int(rng.integers(0, 4))] += 1          # weights sum to 16
+    for i in range(n):                             # an n-cycle keeps the chain irreducible
+        C[cyc[i], cyc[(i + 1) % n]] += w[0]
+    for wk in w[1:]:
+        P = [int(x) for x in rng.permutation(n)]
+        for i in range(n):
+            C[i, P[i]] += wk
+    C = C + C.T                                    # symmetric, every row sums to 32
+    return [[F(int(C[i][j]), 32) for j in range(n)] for i in range(n)]
+
+
+def exact_pi_reversible(T):
+    """stationary vector of a reversible chain recovered exactly by detailed balance along a spanning tree"""
+    n = len(T)
+    w = [None] * n
+    w[0] = F(1)
+    stack = [0]
+    while stack:
+        i = stack.pop()
+        for j in range(n):
+            if w[j] is None and T[i][j] != 0 and T[j][i] != 0:
+                w[j] = w[i] * T[i][j] / T[j][i]
+                stack.append(j)
+    tot = sum(w)
+    return [x / tot for x in w]
 
 
 def cond_factor(Tf):
@@ -190,11 +316,44 @@ def t_float(T):
     return np.array([[x.numerator / x.denominator for x in row] for row in T], dtype=float)
 
 
+DENSE_VARIANTS = ['fortran', 'revview', 'npmatrix', 'float32']
+
+
 def to_container(Tf, name):
     if name == 'ndarray':
         return np.array(Tf, copy=True)
+    if name == 'fortran':
+        return np.asfortranarray(Tf)
+    if name == 'revview':           # negative strides in both axes, same values
+        return np.ascontiguousarray(Tf[::-1, ::-1])[::-1, ::-1]
+    if name == 'npmatrix':
+        return np.matrix(Tf)
+    if name == 'float32':           # only used for chains whose entries are exact in float32
+        X = Tf.astype(np.float32)
+        assert np.array_equal(X.astype(float), Tf)
+        return X
     import scipy.sparse as sp
     return getattr(sp, name)(Tf)
+
+
+def case_T(case):
+    """exact T of a case: sent explicitly, or regenerated from its recipe (large chains)"""
+    if 'T' in case:
+        return t_from_json(case['T'])
+    g = case['Tgen']
+    assert g['family'] == 'banded'
+    return gen_banded(np.random.default_rng(g['seed']), g['n'])[0]
+
+
+def case_id(case):
+    return {'T': case['T']} if 'T' in case else {'Tgen': case['Tgen']}
+
+
+def dense_variant(case_kind, i):
+    v = DENSE_VARIANTS[i % 4]
+    if v == 'float32' and case_kind not in ('dyadic', 'rev-dyadic'):
+        v = DENSE_VARIANTS[(i // 4) % 3]
+    return v
 
 
 def snap(x):
@@ -221,17 +380,67 @@ def snap(x):
         return tuple(parts)
     if isinstance(x, (list, tuple)):
         return ('seq', type(x).__name__, tuple(x))
+    if isinstance(x, range):
+        return ('range', x.start, x.stop, x.step)
+    if isinstance(x, np.generic):
+        return ('npscalar', x.dtype.str, x.tobytes())
     return ('scalar', type(x).__name__, x)
 
 
+INT_DTYPES = {'int8': np.int8, 'uint8': np.uint8, 'int16': np.int16, 'uint16': np.uint16, 'int32': np.int32}
+
+
 def as_arg(states, form):
+    """the same state set in the requested representation (falls back to a wide one when it cannot hold the ids)"""
+    states = [int(x) for x in states]
     if form == 'list':
         return list(states)
     if form == 'ndarray':
-        return np.array(states, dtype=int)
+        return np.array(states, dtype=np.int64)
+    if form == 'tuple':
+        return tuple(states)
+    if form in INT_DTYPES:
+        dt = INT_DTYPES[form]
+        if max(states) <= np.iinfo(dt).max:
+            return np.array(states, dtype=dt)
+        return np.array(states, dtype=np.int32)
     if form == 'scalar' and len(states) == 1:
         return int(states[0])
+    if form == 'npscalar' and len(states) == 1:
+        return np.int16(states[0]) if states[0] % 2 else np.int64(states[0])
+    if form == 'range' and states == list(range(states[0], states[0] + len(states))):
+        return range(states[0], states[0] + len(states))
+    if form in ('scalar', 'npscalar', 'range'):
+        return tuple(states)
     return list(states)
+
+
+POPFORMS = ['given', 'given-list', 'given-tuple', 'given-f32']
+
+
+def pops_arg(pi, form):
+    """(argument, float64 values the code will effectively use)"""
+    if form == 'none':
+        return None, np.asarray(pi, dtype=float)
+    if form == 'given-list':
+        return [float(x) for x in pi], np.asarray(pi, dtype=float)
+    if form == 'given-tuple':
+        return tuple(float(x) for x in pi), np.asarray(pi, dtype=float)
+    if form == 'given-f32':
+        a = np.asarray(pi, dtype=np.float32)
+        return a, a.astype(float)
+    return np.array(pi, dtype=float), np.asarray(pi, dtype=float)
+
+
+def order_tags(src, snk):
+    tags = []
+    if list(src) != sorted(src) or list(snk) != sorted(snk):
+        tags.append('order=unsorted')
+    if max(snk) < min(src):
+        tags.append('order=every-sink-id-below-every-source-id')
+    elif min(snk) < max(src):
+        tags.append('order=some-sink-id-below-a-source-id')
+    return tags
 
 
 def fr_vec(resp):
@@ -256,6 +465,8 @@ def call(fn, *a, **k):
 # ----------------------------------------------------------------------------- committors
 
 def committor_requests(case):
+    if not case.get('model', True):
+        return []
     return [{'op': 'C07.committors', 'T': case['T'], 'sources': case['sources'], 'sinks': case['sinks']},
             {'op': 'C07.imq', 'T': case['T'], 'absorbing': case['sources'] + case['sinks']}]
 
@@ -263,7 +474,7 @@ def committor_requests(case):
 def check_committors(ctx, case, resp):
     from enspara import tpt
     from enspara.tpt import core
-    T = t_from_json(case['T'])
+    T = case_T(case)
     n = len(T)
     Tf = t_float(T)
     src, snk = case['sources'], case['sinks']
@@ -274,17 +485,25 @@ def check_committors(ctx, case, resp):
     QTOL = TOL0 + 5e-15 / gap
     if fac > 1:
         ctx.tag('committors slow-mixing gap<1e-%d' % int(np.floor(-np.log10(gap))))
-    ctx.case({k: case[k] for k in ('T', 'sources', 'sinks')}, nontrivial=len(inter) > 0,
-             tags=['committors', 'kind=' + case['kind'], 'n=%d' % n,
-                   'nsrc=%d' % len(src), 'nsnk=%d' % len(snk),
-                   'no-intermediate' if not inter else 'has-intermediate',
-                   'argform=' + case['argform']])
+    kw = case.get('callstyle') == 'kw'
+    ctx.case(dict(case_id(case), sources=src, sinks=snk), nontrivial=len(inter) > 0,
+             tags=['committors', 'kind=' + case['kind'], 'n=%d' % n if n <= 10 else 'n>255' if n > 255 else 'n>10',
+                   'nsrc=%d' % min(len(src), 4), 'nsnk=%d' % min(len(snk), 4),
+                   'no-intermediate' if not inter else 'one-intermediate' if len(inter) == 1 else 'has-intermediate',
+                   'argform=' + case['argform'], 'mode=' + case.get('mode', '?'),
+                   'call=keyword' if kw else 'call=positional'] + order_tags(src, snk))
+
+    def run_one(X, a_src, a_snk):
+        if kw:
+            return call(tpt.committors, tprob=X, sources=a_src, sinks=a_snk)
+        return call(tpt.committors, X, a_src, a_snk)
+
     results = {}
     for cont in ['ndarray'] + case['containers']:
         X = to_container(Tf, cont)
         a_src, a_snk = as_arg(src, case['argform']), as_arg(snk, case['argform'])
         before = (snap(X), snap(a_src), snap(a_snk))
-        r = call(tpt.committors, X, a_src, a_snk)
+        r = run_one(X, a_src, a_snk)
         ctx.tag('container=' + cont)
         if 'error' in r:
             ctx.violation('tpt.committors raised %s (%s)' % (r['error'], cont), dict(case, failing=cont))
@@ -302,27 +521,47 @@ def check_committors(ctx, case, resp):
             ctx.violation('committors not finite (%s)' % cont, dict(case, failing=cont))
             return
         if np.any(np.abs(q[src]) > TIGHT0):
-            ctx.violation('committor not 0 on a source (%s)' % cont, dict(case, failing=cont, got=q.tolist()))
+            ctx.violation('committor not 0 on a source (%s)' % cont, dict(case, failing=cont, got=q.tolist()[:40]))
             return
         if np.any(np.abs(q[snk] - 1.0) > TIGHT0):
-            ctx.violation('committor not 1 on a sink (%s)' % cont, dict(case, failing=cont, got=q.tolist()))
+            ctx.violation('committor not 1 on a sink (%s)' % cont, dict(case, failing=cont, got=q.tolist()[:40]))
             return
         if np.any(q < -TIGHT) or np.any(q > 1 + TIGHT):
-            ctx.violation('committor outside [0,1] (%s)' % cont, dict(case, failing=cont, got=q.tolist()))
+            ctx.violation('committor outside [0,1] (%s)' % cont, dict(case, failing=cont, got=q.tolist()[:40]))
             return
         if inter:
             res = q[inter] - Tf[inter] @ q
             if np.max(np.abs(res)) > TOL:
                 ctx.violation('committor first-step residual %.3g at an intermediate state (%s)'
-                              % (np.max(np.abs(res)), cont), dict(case, failing=cont, got=q.tolist()))
+                              % (np.max(np.abs(res)), cont), dict(case, failing=cont, got=q.tolist()[:40]))
+                return
+        # the SAME argument objects used again (and by mfpts in between): same answer, still unchanged
+        if case.get('reuse'):
+            ctx.tag('reuse-same-objects container=' + cont)
+            r_mid = call(tpt.mfpts, X, sinks=a_snk)
+            r2 = run_one(X, a_src, a_snk)
+            if 'error' in r_mid or 'error' in r2:
+                ctx.violation('second call on the same argument objects raised %s (%s)'
+                              % (r_mid.get('error') or r2.get('error'), cont), dict(case, failing=cont))
+                return
+            if (snap(X), snap(a_src), snap(a_snk)) != before:
+                ctx.violation('inputs modified after committors -> mfpts -> committors on the same objects (%s)' % cont,
+                              dict(case, failing=cont))
+                return
+            if not np.array_equal(np.asarray(r2['ok'], dtype=float), q):
+                ctx.violation('committors differ when called again with the same argument objects (%s)' % cont,
+                              dict(case, failing=cont))
                 return
     dense = results['ndarray']
     for cont, q in results.items():
         if np.max(np.abs(q - dense)) > TOL:
             ctx.violation('committors differ between ndarray and %s input' % cont,
-                          dict(case, failing=cont, dense=dense.tolist(), sparse=q.tolist()))
+                          dict(case, failing=cont, dense=dense.tolist()[:40], other=q.tolist()[:40]))
             return
     # model vs real
+    if not case.get('model', True):
+        ctx.tag('model-skipped-large-n')
+        return
     mq, mimq = resp
     if 'ok' not in mq:
         ctx.disagreement('Model Tpt.committors returned %s where tpt.committors succeeded' % mq,
@@ -346,6 +585,8 @@ def check_committors(ctx, case, resp):
 # ----------------------------------------------------------------------------- mfpts
 
 def mfpt_requests(case):
+    if not case.get('model', True):
+        return []
     reqs = [{'op': 'C07.eq_probs', 'T': case['T']}]
     for lag in case['lags']:
         reqs.append({'op': 'C07.mfpts_all', 'T': case['T'], 'lag': lag})
@@ -354,48 +595,62 @@ def mfpt_requests(case):
     return reqs
 
 
-def _scale(m):
-    return max(1.0, float(np.max(np.abs(m))))
+def _scale(m, lagf=1.0):
+    """natural scale of a table of passage times: its largest entry, at least one lag time"""
+    return max(lagf, float(np.max(np.abs(m))))
 
 
 def check_mfpts(ctx, case, resp):
     from enspara import tpt
-    T = t_from_json(case['T'])
+    T = case_T(case)
     n = len(T)
     Tf = t_float(T)
     lags = case['lags']
+    use_model = case.get('model', True)
     fac, gap = cond_factor(Tf)
     TOL, TIGHT = TOL0 * fac, TIGHT0
     if fac > 1:
         ctx.tag('mfpts slow-mixing gap<1e-%d' % int(np.floor(-np.log10(gap))))
-    ctx.case({k: case[k] for k in ('T', 'sink_sets', 'lags')}, nontrivial=True,
-             tags=['mfpts', 'kind=' + case['kind'], 'n=%d' % n])
-    m_pi = resp[0]
-    if 'ok' not in m_pi:
-        ctx.disagreement('Model eqProbs failed on an irreducible chain: %s' % m_pi, case)
-        return
-    pi_exact = fr_vec(m_pi['ok'])
-    resp_all = resp[1:1 + len(lags)]
-    resp_sinks = resp[1 + len(lags):]
+    ctx.case(dict(case_id(case), sink_sets=case['sink_sets'], lags=lags), nontrivial=True,
+             tags=['mfpts', 'kind=' + case['kind'], 'n=%d' % n if n <= 10 else 'n>255' if n > 255 else 'n>10',
+                   'mode=' + case.get('mode', 'generic')])
+    if use_model:
+        m_pi = resp[0]
+        if 'ok' not in m_pi:
+            ctx.disagreement('Model eqProbs failed on an irreducible chain: %s' % m_pi, case)
+            return
+        pi_exact = fr_vec(m_pi['ok'])
+        resp_all = resp[1:1 + len(lags)]
+        resp_sinks = resp[1 + len(lags):]
+    else:
+        ctx.tag('model-skipped-large-n')
+        pi_exact = np.array([float(x) for x in exact_pi_reversible(T)])   # reversible families only
+        resp_all = [None] * len(lags)
+        resp_sinks = [None] * len(case['sink_sets'])
+    popform = case.get('popform', 'given')
+
+    def ptol(form):          # float32 populations are stationary only to 6e-8: the equations hold to that accuracy
+        return max(TOL, 1e-5) if form == 'given-f32' else TOL
 
     def fail(what, **extra):
         ctx.violation(what, dict(case, **extra))
 
     # ---- all pairs
-    base = None          # dense, lag 1, populations=None
+    base = None          # dense, first lag, populations=None
     tables = {}
     for li, lag in enumerate(lags):
         lagf = lag[0] / lag[1]
         for cont in ['ndarray'] + case['containers']:
-            for pops in ('none', 'given'):
-                if cont != 'ndarray' and pops == 'given' and li != 0:
+            for pops in ('none', popform):
+                if cont != 'ndarray' and pops != 'none' and li != 0:
                     continue
                 X = to_container(Tf, cont)
-                p = None if pops == 'none' else np.array(pi_exact, copy=True)
+                p, _ = pops_arg(pi_exact, pops)
                 before = (snap(X), snap(p))
                 r = call(tpt.mfpts, X, populations=p, lagtime=lagf)
                 ctx.tag('mfpts-all container=' + cont)
-                ctx.tag('mfpts-all lag=%g pops=%s' % (lagf, pops))
+                ctx.tag('mfpts-all lag=%g' % lagf)
+                ctx.tag('mfpts-all pops=' + pops)
                 where = dict(failing='all-pairs', container=cont, lag=lag, pops=pops)
                 if 'error' in r:
                     return fail('tpt.mfpts (all pairs) raised %s' % r['error'], **where)
@@ -404,37 +659,44 @@ def check_mfpts(ctx, case, resp):
                 m = np.asarray(r['ok'], dtype=float)
                 if m.shape != (n, n) or not np.all(np.isfinite(m)):
                     return fail('all-pairs mfpts: bad shape/non-finite %s' % (m.shape,), **where)
-                sc = _scale(m)
+                sc = _scale(m, lagf)
                 if np.max(np.abs(np.diag(m))) > TIGHT * sc:
-                    return fail('all-pairs mfpts: diagonal not 0', got=m.tolist(), **where)
+                    return fail('all-pairs mfpts: diagonal not 0', **where)
                 # first-step: m_ij = lag + sum_k T_ik m_kj for i != j
                 res = m - lagf - Tf @ m
                 np.fill_diagonal(res, 0.0)
-                if np.max(np.abs(res)) > TOL * sc:
-                    return fail('all-pairs mfpts: first-step residual %.3g' % np.max(np.abs(res)),
-                                got=m.tolist(), **where)
+                if np.max(np.abs(res)) > ptol(pops) * sc:
+                    return fail('all-pairs mfpts: first-step residual %.3g (scale %.3g)' % (np.max(np.abs(res)), sc),
+                                **where)
                 tables[(li, cont, pops)] = m
                 if li == 0 and cont == 'ndarray' and pops == 'none':
-                    base = m
+                    base, base_lag = m, lagf
+                if case.get('reuse') and li == 0:
+                    ctx.tag('reuse-same-objects mfpts')
+                    r2 = call(tpt.mfpts, X, populations=p, lagtime=lagf)
+                    if 'error' in r2 or not np.array_equal(np.asarray(r2['ok'], dtype=float), m) \
+                            or (snap(X), snap(p)) != before:
+                        return fail('mfpts differs / inputs changed when called again with the same objects', **where)
         dense = tables[(li, 'ndarray', 'none')]
-        sc = _scale(dense)
+        sc = _scale(dense, lagf)
         for (l2, cont, pops), m in tables.items():
-            if l2 == li and np.max(np.abs(m - dense)) > TOL * sc:
+            if l2 == li and np.max(np.abs(m - dense)) > ptol(pops) * sc:
                 return fail('all-pairs mfpts differ between ndarray/populations=None and %s/populations=%s' % (cont, pops),
                             failing='all-pairs', container=cont, lag=lag, pops=pops)
         # linear in the lag
-        if np.max(np.abs(dense - lagf * base)) > TOL0 * sc:
+        if np.max(np.abs(dense - (lagf / base_lag) * base)) > TOL0 * sc:
             return fail('all-pairs mfpts not linear in the lag time', failing='all-pairs', lag=lag)
-        mm = resp_all[li]
-        if 'ok' not in mm:
-            ctx.disagreement('Model mfptsAll returned %s' % mm, dict(case, lag=lag))
-            return
-        if np.max(np.abs(fr_mat(mm['ok']) - dense)) > TOL * sc:
-            ctx.disagreement('Model Tpt.mfptsAll vs tpt.mfpts differ by %.3g (lag %s)'
-                             % (np.max(np.abs(fr_mat(mm['ok']) - dense)), lag), dict(case, lag=lag))
-            return
+        if use_model:
+            mm = resp_all[li]
+            if 'ok' not in mm:
+                ctx.disagreement('Model mfptsAll returned %s' % mm, dict(case, lag=lag))
+                return
+            if np.max(np.abs(fr_mat(mm['ok']) - dense)) > TOL * sc:
+                ctx.disagreement('Model Tpt.mfptsAll vs tpt.mfpts differ by %.3g (lag %s)'
+                                 % (np.max(np.abs(fr_mat(mm['ok']) - dense)), lag), dict(case, lag=lag))
+                return
 
-    # ---- sink sets (the first n entries of sink_sets are the singletons {j})
+    # ---- sink sets (the first n entries of sink_sets are the singletons {j} unless the chain is large)
     for S, ms in zip(case['sink_sets'], resp_sinks):
         snk, lag = S['sinks'], S['lag']
         lagf = lag[0] / lag[1]
@@ -443,9 +705,12 @@ def check_mfpts(ctx, case, resp):
         for cont in ['ndarray'] + S['containers']:
             X = to_container(Tf, cont)
             a_snk = as_arg(snk, S['argform'])
-            p = None if S['pops'] == 'none' else np.array(pi_exact, copy=True)
+            p, _ = pops_arg(pi_exact, S['pops'])
             before = (snap(X), snap(a_snk), snap(p))
-            r = call(tpt.mfpts, X, sinks=a_snk, populations=p, lagtime=lagf)
+            if S.get('callstyle') == 'positional':
+                r = call(tpt.mfpts, X, a_snk, p, lagf)
+            else:
+                r = call(tpt.mfpts, X, sinks=a_snk, populations=p, lagtime=lagf)
             ctx.tag('mfpts-sinks container=' + cont)
             where = dict(failing='sinks', sinks=snk, container=cont, lag=lag)
             if 'error' in r:
@@ -455,19 +720,20 @@ def check_mfpts(ctx, case, resp):
             t = np.asarray(r['ok'], dtype=float)
             if t.shape != (n,) or not np.all(np.isfinite(t)):
                 return fail('mfpts(sinks): bad shape/non-finite %s' % (t.shape,), **where)
-            sc = _scale(t)
+            sc = _scale(t, lagf)
             if np.max(np.abs(t[snk])) > TIGHT * sc:
-                return fail('mfpts(sinks): not 0 on a sink', got=t.tolist(), **where)
+                return fail('mfpts(sinks): not 0 on a sink', **where)
             if free:
                 res = t[free] - lagf - Tf[free] @ t
                 if np.max(np.abs(res)) > TOL * sc:
-                    return fail('mfpts(sinks): first-step residual %.3g' % np.max(np.abs(res)),
-                                got=t.tolist(), **where)
+                    return fail('mfpts(sinks): first-step residual %.3g (scale %.3g)' % (np.max(np.abs(res)), sc),
+                                **where)
             results[cont] = t
-        for tg in ('nsnk=%d' % len(snk), 'lag=%g' % lagf, 'argform=' + S['argform'], 'pops=' + S['pops']):
+        for tg in ('nsnk=%d' % min(len(snk), 4), 'lag=%g' % lagf, 'argform=' + S['argform'], 'pops=' + S['pops'],
+                   'call=' + S.get('callstyle', 'keyword')):
             ctx.tag('mfpts-sinks ' + tg)
         dense = results['ndarray']
-        sc = _scale(dense)
+        sc = _scale(dense, lagf)
         for cont, t in results.items():
             if np.max(np.abs(t - dense)) > TOL * sc:
                 return fail('mfpts(sinks) differ between ndarray and %s input' % cont, failing='sinks',
@@ -482,10 +748,12 @@ def check_mfpts(ctx, case, resp):
             li = lags.index(lag) if lag in lags else None
             if li is not None:
                 col = tables[(li, 'ndarray', 'none')][:, j]
-                if np.max(np.abs(col - dense)) > TOL * max(sc, _scale(col)):
+                if np.max(np.abs(col - dense)) > TOL * max(sc, _scale(col, lagf)):
                     return fail('all-pairs column %d differs from the single-sink computation by %.3g'
                                 % (j, np.max(np.abs(col - dense))), failing='column', sinks=snk, lag=lag)
                 ctx.tag('column-vs-single-sink')
+        if not use_model:
+            continue
         if 'ok' not in ms:
             ctx.disagreement('Model mfptsSinks returned %s' % ms, dict(case, sinks=snk, lag=lag))
             return
@@ -498,7 +766,29 @@ def check_mfpts(ctx, case, resp):
 # ----------------------------------------------------------------------------- case construction
 
 KINDS = ['rev', 'nonrev', 'dyadic', 'cycle']
-ARGFORMS = ['list', 'ndarray', 'scalar']
+ARGFORMS = ['list', 'ndarray', 'scalar', 'tuple', 'int8', 'uint8', 'int16', 'uint16', 'int32', 'npscalar', 'range']
+LAGS_EXT = [[1, 1], [1, 10 ** 6], [10 ** 6, 1]]
+LARGE_N = [257, 300, 260, 511]
+
+
+def split_all_but_one(rng, n):
+    """sources and sinks together cover every state but one (set sizes up to n-2), shuffled"""
+    p = [int(x) for x in rng.permutation(n)]
+    rest = p[1:]
+    a = int(rng.integers(1, len(rest)))
+    return rest[:a], rest[a:]
+
+
+def sinks_below_sources(rng, n):
+    """every sink id below every source id, both in unsorted (descending / shuffled) order"""
+    a, b = int(rng.integers(1, 4)), int(rng.integers(1, 4))
+    while a + b > n:
+        a, b = max(1, a - 1), max(1, b - 1)
+    ids = sorted(int(x) for x in rng.choice(n, size=a + b, replace=False))
+    snk, src = ids[:b][::-1], ids[b:][::-1]
+    if len(src) == 3 and rng.random() < 0.5:
+        src = [src[1], src[0], src[2]]
+    return src, snk
 
 
 def make_committor_cases(ctx):
@@ -510,8 +800,32 @@ def make_committor_cases(ctx):
         rot[0] += 1
         return [CONTAINERS[rot[0] % len(CONTAINERS)]]
 
-    # exhaustive source/sink pairs on small chains; one rotating sparse container per pair
-    exhaustive = ctx.n({3: 8, 4: 6, 5: 2, 6: 1}, {3: 16, 4: 16, 5: 12, 6: 6, 7: 3})
+    def argform():
+        return ARGFORMS[int(rng.integers(0, len(ARGFORMS)))]
+
+    def add(kind, T, A, B, containers, mode, **extra):
+        rot[0] += 1
+        c = {'check': 'committors', 'kind': kind, 'sources': [int(x) for x in A], 'sinks': [int(x) for x in B],
+             'containers': containers, 'argform': argform(), 'mode': mode,
+             'callstyle': 'kw' if rot[0] % 3 == 0 else 'positional'}
+        if isinstance(T, dict):
+            c['Tgen'] = T
+            c['model'] = False
+        else:
+            c['T'] = T
+        c.update(extra)
+        cases.append(c)
+
+    # class 6 first (a seeded mutant needed exactly this): every sink id below every source id, unsorted order
+    for r in range(ctx.n(60, 600)):
+        n = int(rng.integers(3, 10))
+        kind = KINDS[r % len(KINDS)]
+        T = t_json(gen_chain(rng, n, kind))
+        A, B = sinks_below_sources(rng, n)
+        add(kind, T, A, B, list(CONTAINERS) if r % 4 == 0 else one_container() + [dense_variant(kind, r)],
+            'sinks-below-sources', reuse=(r % 5 == 0))
+    # exhaustive source/sink pairs on small chains (incl. 2-state chains); one rotating sparse container per pair
+    exhaustive = ctx.n({2: 4, 3: 8, 4: 6, 5: 2, 6: 1}, {2: 8, 3: 16, 4: 16, 5: 12, 6: 6, 7: 3})
     for n, reps in exhaustive.items():
         for r in range(reps):
             kind = KINDS[(r + n) % len(KINDS)]
@@ -520,19 +834,15 @@ def make_committor_cases(ctx):
                 A, B = list(A), list(B)
                 if rng.random() < 0.5:
                     A, B = A[::-1], B[::-1]
-                cases.append({'check': 'committors', 'kind': kind, 'T': T, 'sources': A, 'sinks': B,
-                              'containers': one_container(),
-                              'argform': ARGFORMS[int(rng.integers(0, 3))], 'mode': 'exhaustive'})
-    # random pairs on chains up to 10 states; every container
+                add(kind, T, A, B, one_container(), 'exhaustive')
+    # random pairs on chains up to 10 states; every sparse container + one dense variant
     for r in range(ctx.n(500, 4000)):
         n = int(rng.integers(3, 11))
-        kind = KINDS[int(rng.integers(0, len(KINDS)))]
+        kind = (KINDS + ['rev-dyadic'])[int(rng.integers(0, len(KINDS) + 1))]
         T = t_json(gen_chain(rng, n, kind))
-        for _ in range(2):
+        for k in range(2):
             A, B = random_set_pair(rng, n)
-            cases.append({'check': 'committors', 'kind': kind, 'T': T, 'sources': A, 'sinks': B,
-                          'containers': list(CONTAINERS),
-                          'argform': ARGFORMS[int(rng.integers(0, 3))], 'mode': 'random'})
+            add(kind, T, A, B, list(CONTAINERS) + [dense_variant(kind, 2 * r + k)], 'random', reuse=(r % 5 == 0))
     # slowly mixing (metastable / nearly uncoupled) chains: ill-conditioned solves, tiny committors
     for r in range(ctx.n(24, 600)):
         kind = 'meta-rev' if r % 2 == 0 else 'meta-nonrev'
@@ -540,25 +850,52 @@ def make_committor_cases(ctx):
         n = len(Tq)
         for _ in range(2):
             A, B = random_set_pair(rng, n)
-            cases.append({'check': 'committors', 'kind': kind, 'T': t_json(Tq), 'sources': A, 'sinks': B,
-                          'containers': list(CONTAINERS) if r % 3 == 0 else one_container(),
-                          'argform': ARGFORMS[int(rng.integers(0, 3))], 'mode': 'metastable'})
+            add(kind, t_json(Tq), A, B, list(CONTAINERS) if r % 3 == 0 else one_container(), 'metastable')
+    # degenerate structure: sources + sinks = all states but one (set sizes beyond 3)
+    for r in range(ctx.n(24, 400)):
+        n = int(rng.integers(3, 10))
+        kind = KINDS[r % len(KINDS)]
+        A, B = split_all_but_one(rng, n)
+        add(kind, t_json(gen_chain(rng, n, kind)), A, B, one_container() + [dense_variant(kind, r)], 'all-but-one')
+    # a source adjacent only to a sink
+    for r in range(ctx.n(12, 200)):
+        n = int(rng.integers(3, 9))
+        T, s, k = gen_pendant(rng, n)
+        others = [i for i in range(n) if i not in (s, k)]
+        extra_snk = [int(x) for x in rng.permutation(others)[:int(rng.integers(0, 2))]]
+        add('pendant', t_json(T), [s], [k] + extra_snk, list(CONTAINERS) if r % 3 == 0 else one_container(),
+            'source-adjacent-only-to-sink', reuse=True)
+    # self-transition probability 1 - 1e-6 / 1 - 1e-9; entries ~1e-13 next to O(1)
+    for r in range(ctx.n(16, 300)):
+        n = int(rng.integers(3, 9))
+        kind = ['sticky', 'tiny-rev', 'tiny-nonrev', 'sticky'][r % 4]
+        T = t_json(gen_chain(rng, n, kind))
+        A, B = random_set_pair(rng, n)
+        add(kind, T, A, B, list(CONTAINERS) if r % 3 == 0 else one_container(), 'scale', reuse=(r % 2 == 0))
+    # more than 255 states: ids that do not fit int8/uint8, banded chain, oracle only (exact model too slow)
+    for r in range(ctx.n(2, 12)):
+        n = LARGE_N[r % len(LARGE_N)]
+        seed = int(rng.integers(0, 2 ** 31))
+        hi = [int(x) for x in rng.choice(np.arange(256, n), size=min(2, n - 256), replace=False)]
+        lo = [int(x) for x in rng.choice(256, size=3, replace=False)]
+        A, B = (hi[:1] + lo[:1], hi[1:] + lo[1:]) if r % 2 == 0 else (lo[:2], hi + lo[2:])
+        add('banded', {'family': 'banded', 'n': n, 'seed': seed}, A, B, list(CONTAINERS), 'large-n',
+            argform=['uint16', 'int16', 'int32', 'uint8', 'list', 'tuple'][r % 6], reuse=(r == 0))
     return cases
 
 
 def make_mfpt_cases(ctx):
     rng = ctx.rng
     cases = []
-    n_generic, n_meta = ctx.n(200, 1600), ctx.n(16, 400)
-    for r in range(n_generic + n_meta):
-        n = 3 + (r % 8) if r < 16 else int(rng.integers(3, 11))
-        kind = KINDS[r % len(KINDS)] if r < n_generic else ('meta-rev' if r % 2 else 'meta-nonrev')
-        T = t_json(gen_chain(rng, n, kind))
-        n = len(T)
+
+    def sink_sets(n, r, lags, T_small=True):
         sets = []
-        for j in range(n):      # every singleton: column j of the all-pairs table
-            sets.append({'sinks': [j], 'lag': LAGS[(j + r) % 3], 'containers': [CONTAINERS[(j + r) % 7]],
-                         'argform': ARGFORMS[(j + r) % 3], 'pops': 'none' if (j + r) % 2 else 'given'})
+        singles = range(n) if T_small else [int(x) for x in rng.choice(n, size=3, replace=False)] + [n - 1]
+        for j in singles:      # every singleton: column j of the all-pairs table
+            sets.append({'sinks': [int(j)], 'lag': lags[(j + r) % 3], 'containers': [CONTAINERS[(j + r) % 7]],
+                         'argform': ARGFORMS[(j + r) % len(ARGFORMS)],
+                         'pops': 'none' if (j + r) % 2 else POPFORMS[(j + r) % 4],
+                         'callstyle': 'positional' if (j + r) % 3 == 0 else 'keyword'})
         if n <= 4 and r < 24:
             more = [list(c) for k in (2, 3) for c in itertools.combinations(range(n), k) if k <= n]
         else:
@@ -566,12 +903,56 @@ def make_mfpt_cases(ctx):
             for _ in range(4):
                 k = int(rng.integers(2, 4))
                 more.append([int(x) for x in rng.permutation(n)[:min(k, n)]])
+            if n >= 4:          # all states but one are sinks
+                more.append([int(x) for x in rng.permutation(n)[:n - 1]])
         for i, S in enumerate(more):
-            sets.append({'sinks': S, 'lag': LAGS[(i + r) % 3],
-                         'containers': list(CONTAINERS) if i % 2 == 0 else [CONTAINERS[(i + r) % 7]],
-                         'argform': ARGFORMS[(i + r + 1) % 2], 'pops': 'none' if i % 3 else 'given'})
-        cases.append({'check': 'mfpts', 'kind': kind, 'T': T, 'lags': LAGS, 'sink_sets': sets,
-                      'containers': list(CONTAINERS) if r % 3 == 0 else [CONTAINERS[r % 7]]})
+            sets.append({'sinks': S, 'lag': lags[(i + r) % 3],
+                         'containers': list(CONTAINERS) if (i % 2 == 0 and T_small) else [CONTAINERS[(i + r) % 7]],
+                         'argform': ARGFORMS[(i + 3 * r + 1) % len(ARGFORMS)],
+                         'pops': 'none' if i % 3 else POPFORMS[(i + r) % 4],
+                         'callstyle': 'positional' if (i + r) % 3 == 0 else 'keyword'})
+        return sets
+
+    def add(kind, T, r, lags, mode, containers=None, **extra):
+        n = T['n'] if isinstance(T, dict) else len(T)
+        small = n <= 10
+        c = {'check': 'mfpts', 'kind': kind, 'lags': lags, 'sink_sets': sink_sets(n, r, lags, small),
+             'containers': containers if containers is not None else
+             (list(CONTAINERS) if r % 3 == 0 else [CONTAINERS[r % 7]]) + [dense_variant(kind, r)],
+             'popform': POPFORMS[r % 4], 'mode': mode}
+        if isinstance(T, dict):
+            c['Tgen'] = T
+            c['model'] = False
+        else:
+            c['T'] = T
+        c.update(extra)
+        cases.append(c)
+
+    n_generic, n_meta = ctx.n(200, 1600), ctx.n(16, 400)
+    for r in range(n_generic + n_meta):
+        n = 2 + (r % 9) if r < 18 else int(rng.integers(2, 11))
+        kind = (KINDS + ['rev-dyadic'])[r % 5] if r < n_generic else ('meta-rev' if r % 2 else 'meta-nonrev')
+        T = t_json(gen_chain(rng, n, kind))
+        add(kind, T, r, LAGS, 'generic' if r < n_generic else 'metastable', reuse=(r % 7 == 0))
+    # lag times 1e-6 and 1e6
+    for r in range(ctx.n(8, 120)):
+        n = int(rng.integers(2, 9))
+        kind = KINDS[r % len(KINDS)]
+        add(kind, t_json(gen_chain(rng, n, kind)), r, LAGS_EXT, 'lag-extremes')
+    # self-transition 1 - 1e-9, entries ~1e-13, pendant states
+    for r in range(ctx.n(9, 150)):
+        n = int(rng.integers(3, 8))
+        kind = ['sticky', 'tiny-rev', 'tiny-nonrev'][r % 3]
+        if r % 4 == 3:
+            kind, T = 'pendant', gen_pendant(rng, n)[0]
+        else:
+            T = gen_chain(rng, n, kind)
+        add(kind, t_json(T), r, LAGS, 'scale', reuse=True)
+    # more than 255 states (reversible banded; exact populations in closed form; oracle only)
+    for r in range(ctx.n(1, 4)):
+        n = LARGE_N[r % len(LARGE_N)]
+        add('banded', {'family': 'banded', 'n': n, 'seed': int(rng.integers(0, 2 ** 31)), }, r, LAGS, 'large-n',
+            containers=[CONTAINERS[r % 7]], popform='given')
     return cases
 
 
@@ -592,10 +973,15 @@ def run_cases(ctx, cases):
 def run(ctx):
     cases = make_committor_cases(ctx) + make_mfpt_cases(ctx)
     run_cases(ctx, cases)
-    ctx.note('tolerances', {'residual_rel': TOL0, 'boundary_abs': TIGHT0, 'slow_mixing': 'x 1e-3/gap when gap < 1e-3'})
+    ctx.note('tolerances', {'residual_rel': TOL0, 'boundary_abs': TIGHT0, 'slow_mixing': 'x 1e-3/gap when gap < 1e-3',
+                            'float32_populations': '1e-5 relative (they are stationary only to 6e-8)'})
+
+
+REPLAY_KEYS = {'committors': ('check', 'kind', 'T', 'Tgen', 'model', 'sources', 'sinks', 'containers', 'argform',
+                              'callstyle', 'reuse', 'mode'),
+               'mfpts': ('check', 'kind', 'T', 'Tgen', 'model', 'lags', 'sink_sets', 'containers', 'popform', 'reuse',
+                         'mode')}
 
 
 def replay(ctx, data):
-    keys = {'committors': ('check', 'kind', 'T', 'sources', 'sinks', 'containers', 'argform'),
-            'mfpts': ('check', 'kind', 'T', 'lags', 'sink_sets', 'containers')}[data['check']]
-    run_cases(ctx, [{k: data[k] for k in keys}])
+    run_cases(ctx, [{k: data[k] for k in REPLAY_KEYS[data['check']] if k in data}])
